@@ -1,6 +1,10 @@
 package proto
 
-import "github.com/go-faster/errors"
+import (
+	"strings"
+
+	"github.com/go-faster/errors"
+)
 
 // ColTuple is Tuple column.
 //
@@ -38,7 +42,12 @@ type ColNamed[T any] struct {
 
 func (c *ColNamed[T]) Infer(t ColumnType) error {
 	if v, ok := c.ColumnOf.(Inferable); ok {
-		if err := v.Infer(t); err != nil {
+		// An element of a named tuple is "name type", see Type.
+		elem, ok := strings.CutPrefix(string(t), c.Name+" ")
+		if !ok {
+			return errors.Errorf("named: %q is not an element named %q", t, c.Name)
+		}
+		if err := v.Infer(ColumnType(elem)); err != nil {
 			return errors.Wrap(err, "named")
 		}
 	}
@@ -107,11 +116,21 @@ func (c ColTuple) Prepare() error {
 }
 
 func (c ColTuple) Infer(t ColumnType) error {
-	for _, v := range c {
-		if s, ok := v.(Inferable); ok {
-			if err := s.Infer(t); err != nil {
-				return errors.Wrap(err, "infer")
+	var args []string
+	for i, v := range c {
+		s, ok := v.(Inferable)
+		if !ok {
+			continue
+		}
+		if args == nil {
+			// Element i adopts argument i of Tuple(...).
+			args = splitTypeArgs(string(t.Elem()))
+			if len(args) != len(c) {
+				return errors.Errorf("infer: %q has %d elements, column has %d", t, len(args), len(c))
 			}
+		}
+		if err := s.Infer(ColumnType(strings.TrimSpace(args[i]))); err != nil {
+			return errors.Wrap(err, "infer")
 		}
 	}
 	return nil
